@@ -202,11 +202,22 @@ func (DynSource) CaddyModule() caddy.ModuleInfo {
 var dynReg sync.Map // first dial address -> *kase
 
 type dynCall struct {
-	rid int
-	ups []*reverseproxy.Upstream
+	rid    int
+	ups    []*reverseproxy.Upstream
+	failed bool // the source returned an error: the iteration uses the static upstreams
 }
 
 func (d DynSource) GetUpstreams(r *http.Request) ([]*reverseproxy.Upstream, error) {
+	if len(d.Dials) > 0 {
+		if v, ok := dynReg.Load(d.Dials[0]); ok && v.(*kase).srcFails.Load() {
+			k := v.(*kase)
+			rid, _ := strconv.Atoi(r.Header.Get("X-Rid"))
+			k.mu.Lock()
+			k.dynCalls = append(k.dynCalls, dynCall{rid: rid, failed: true})
+			k.mu.Unlock()
+			return nil, fmt.Errorf("verif c09: the dynamic upstream source fails")
+		}
+	}
 	ups := make([]*reverseproxy.Upstream, len(d.Dials))
 	for i, a := range d.Dials {
 		ups[i] = &reverseproxy.Upstream{Dial: a}
@@ -249,6 +260,9 @@ func (k *kase) reqObj(r *reqSt) int {
 	for i := len(k.dynCalls) - 1; i >= 0; i-- {
 		if k.dynCalls[i].rid != r.id {
 			continue
+		}
+		if k.dynCalls[i].failed {
+			return r.cfg.objOfKey(r.at)
 		}
 		for _, u := range k.dynCalls[i].ups {
 			if u.Dial == k.dial(r.at) && u.Host != nil {
@@ -310,24 +324,26 @@ func (p *prop) Finish(s *core.Session) {
 // ---------------------------------------------------------------- case syntax
 
 type step struct {
-	text string
-	op   byte
-	keys []int
-	p    bool
-	d    int
-	m    int
-	r    int
-	q    int
-	s    int
-	x    int  // max_requests of the first upstream (0 = not set)
-	dyn  bool // Y step: the upstreams come from a dynamic source
-	lat  bool // passive unhealthy_latency configured (latencyLimit)
-	act  bool // active health checks run every few milliseconds (thresholds out of reach: they must not change anything)
-	get  bool
-	rid  int
-	out  string
-	key  int
-	n    int
+	text  string
+	op    byte
+	keys  []int
+	p     bool
+	d     int
+	m     int
+	r     int
+	q     int
+	s     int
+	x     int   // max_requests of the first upstream (0 = not set)
+	dyn   bool  // Y step: the upstreams come from a dynamic source
+	skeys []int // Y step: static upstreams (fallback while the source fails)
+	fail  bool  // E step: the source starts (true) / stops failing
+	lat   bool  // passive unhealthy_latency configured (latencyLimit)
+	act   bool  // active health checks run every few milliseconds (thresholds out of reach: they must not change anything)
+	get   bool
+	rid   int
+	out   string
+	key   int
+	n     int
 }
 
 // num parses a strict decimal: digits only, no leading zero, at most 4 digits.
@@ -388,10 +404,18 @@ func parseStep(s string, K int) (st step, ok bool) {
 	st.op = f[0][0]
 	switch st.op {
 	case 'L', 'Y':
-		if len(f) != 8 && !((len(f) == 9 || len(f) == 10) && st.op == 'L') {
+		if len(f) != 8 && !((len(f) == 9 || len(f) == 10) && st.op == 'L') && !(len(f) == 9 && st.op == 'Y') {
 			return st, false
 		}
 		st.dyn = st.op == 'Y'
+		if st.op == 'Y' && len(f) == 9 {
+			// ninth field of Y: static upstreams the handler falls back to while the source fails
+			var oks bool
+			st.skeys, oks = parseKeys(f[8], K)
+			if !oks {
+				return st, false
+			}
+		}
 		if len(f) == 10 {
 			// tenth field: 1 = unhealthy_latency configured, 2 = active health checks running in
 			// the background, 3 = both (then the ninth field may be 0)
@@ -402,7 +426,7 @@ func parseStep(s string, K int) (st step, ok bool) {
 			}
 			st.x, st.lat, st.act = x, l == 1 || l == 3, l >= 2
 		}
-		if len(f) == 9 {
+		if len(f) == 9 && st.op == 'L' {
 			var okx bool
 			st.x, okx = num(f[8])
 			if !okx || st.x < 1 || st.x > 100 {
@@ -452,6 +476,12 @@ func parseStep(s string, K int) (st step, ok bool) {
 		}
 		st.rid, ok = num(f[1])
 		return st, ok
+	case 'E':
+		if len(f) != 2 || (f[1] != "0" && f[1] != "1") {
+			return st, false
+		}
+		st.fail = f[1] == "1"
+		return st, true
 	case 'D', 'U':
 		if len(f) != 2 {
 			return st, false
@@ -616,7 +646,8 @@ type kase struct {
 	cf             bool      // configurations are delivered as Caddyfile where possible
 	dynCalls       []dynCall // every GetUpstreams call of the dynamic source, in order (under mu)
 	dynSeen        int
-	raced          bool // see the O/A step: a retry that only scheduler noise makes possible
+	srcFails       atomic.Bool // the dynamic source answers with an error
+	raced          bool        // see the O/A step: a retry that only scheduler noise makes possible
 	infra          string
 }
 
@@ -764,7 +795,14 @@ func (k *kase) handlerJSON(st step, bad bool) []byte {
 		},
 	}
 	if st.dyn {
-		delete(m, "upstreams")
+		sups := []any{}
+		for _, key := range st.skeys {
+			sups = append(sups, map[string]any{"dial": k.dial(key)})
+		}
+		m["upstreams"] = sups
+		if len(sups) == 0 {
+			delete(m, "upstreams")
+		}
 		dials := []string{}
 		for _, key := range st.keys {
 			dials = append(dials, k.dial(key))
@@ -1282,6 +1320,16 @@ func (p *prop) runSched(K int, src stepSource, U time.Duration, cf bool) (impl s
 				// for longer than try_interval right before the select (both cases ready).
 				// That is scheduler noise, not a schedule: run the case again.
 				k.raced = true
+			}
+		case 'E':
+			if k.srcFails.Load() == st.fail {
+				ok = false
+				break
+			}
+			k.srcFails.Store(st.fail)
+			ev = "-"
+			if st.fail {
+				k.tag("dynamic-source-fails")
 			}
 		case 'D':
 			if k.backends[st.key].srv == nil {
